@@ -33,11 +33,11 @@ Specification: spec/PendLabel.tla
     of another one, PUBLIC, GLOBAL, EQU, SET using the label, one data byte, empty or comment line, LISTING, call of
     an empty macro, call of a macro that expands to SHARED of the label) x following statement {aligned instruction,
     DC.W, DC.B, DS.W, ALIGN, END}: 6384 programs, 131 k states, invariants Final (all of the above) and Sane;
-    thorough (PendLabel_MC_full.cfg) adds every pair of blocks with <= 1 intervening statement.
+    thorough (PendLabel_MC_full.cfg) adds every pair of blocks with <= 1 intervening statement (75 k programs, 2.0 M states).
     PendLabel_MC_dev.cfg (ResetRule = "labelled-or-code") must be REFUTED by TLC (ShareStatesFinal).
 (G) PendLabel_Gen: the blocks are numbered (intervening statements: none, each kind, quick: the pairs in which one of
     the two leaves the label pending, thorough: every pair) and dealt to programs of 14 blocks + one block in front of
-    END (quick 40 programs, 1120 distinct (target, parity, intervening, following) blocks; thorough 95 programs),
+    END (quick 40 programs, 1120 distinct (target, parity, intervening, following) blocks; thorough 93 programs),
     every second pair of programs with a forward SHARED of all labels (two passes); behind the blocks a reference
     table (DC.W / WORD of every symbol) and a SHARED of every symbol.  Exported per target with every symbol's final
     value, the share lines in order, the table, the pieces laid down per statement.  Rendered by vlib/pendlabel.py
@@ -53,9 +53,11 @@ Specification: spec/PendLabel.tla
     of the block in front of END, which has no word in the table).
 Not covered: STRUCT elements (pLabelElement), IRP / REPT / WHILE between label and statement, labels in macro bodies,
 AVR byte mode, TMS9900, padding by DC.L / odd-length DC.B runs; sections other than the wrapping described.
-Mutations of the real code tried on a scratch copy: the seeded one (quick tier: exit 1, see c19.py docstring for the
-counts); asmcode.c InsertPadding without LabelModify: every block with a still-pending label at an odd address is
-reported as SPEC-DRIFT only (all reports agree on the unmoved value: the property holds, the manual's rule does not).
+Mutations of the real code tried on a scratch copy: the seeded one (quick tier: exit 1; PendLabel_Trace rejects 50
+events in 44 of 80 runs, Listing_Trace 24 SYM events in 22 of the 40 runs it sees); asmcode.c InsertPadding without
+LabelModify: 46 of 80 runs reported as SPEC-DRIFT only (all reports agree on the unmoved value: the property holds,
+the manual's rule does not).  ./check C19 --selftest: a share / listing / MAP value or a table word changed by one is
+rejected each.
 """
 import concurrent.futures as cf
 import os
